@@ -287,7 +287,23 @@ type retainedSlice struct {
 // TxDigest returns the digest of everything the engine has returned so far.
 func (e *Eng) TxDigest() string { return hex.EncodeToString(e.tx.Sum(nil)) }
 
-func (e *Eng) txf(format string, a ...any) { fmt.Fprintf(e.tx, format, a...) }
+func (e *Eng) txf(format string, a ...any) {
+	fmt.Fprintf(e.tx, format, a...)
+	if TxLog != nil { // (development aid: the transcript in clear)
+		fmt.Fprintf(TxLog, "%s: "+format+"\n", append([]any{e.Cfg.String()}, a...)...)
+	}
+}
+
+// TxLog, when set (VERIF_TXLOG=<file>), receives every transcript entry in clear.
+var TxLog io.Writer
+
+func init() {
+	if p := os.Getenv("VERIF_TXLOG"); p != "" {
+		if f, err := os.Create(p); err == nil {
+			TxLog = f
+		}
+	}
+}
 
 // args returns the key and value slices to pass to the engine.
 func (e *Eng) args(rank, vid int) (key, val []byte) {
